@@ -6,6 +6,7 @@
 #include "cmd_cond.h"
 #include "cmd_sym.h"
 #include "cmd_sim.h"
+#include "cmd_simx.h"
 #include "cmd_mem.h"
 #include "cmd_fileio.h"
 #include "cmd_det.h"
@@ -22,6 +23,7 @@ static void register_all()
   register_cond();
   register_sym();
   register_sim();
+  register_simx();
   register_mem();
   register_fileio();
   register_det();
